@@ -573,12 +573,12 @@ class C08(Check):
             return ["crc", g_bytes(rng, n)]
         if k < 0.38:
             m = rng.random()
-            if m < 0.03:
+            if m < 0.008:
                 # chunks at the 65535-byte limit; list-shaped ones (model cost is quadratic) at the limit only
                 # in the thorough tier and rarely
                 c = g_chunk(rng, rng.choice([0, 3, 4, 192, 10]),
                             huge=2 if (self._tier == "thorough" and rng.random() < 0.004) else 1)
-            elif m < 0.10:
+            elif m < 0.07:
                 c = g_bad_chunk(rng)
             else:
                 c = g_chunk(rng)
